@@ -3,6 +3,7 @@ package meta
 import (
 	"errors"
 	"fmt"
+	"strings"
 
 	"github.com/freeconf/yang/val"
 )
@@ -322,7 +323,7 @@ func (c *compiler) compileType(y *Type, parent Leafable, isUnion bool) error {
 			return fmt.Errorf("%s - %s path is required", SchemaPath(parent), y.ident)
 		}
 		// parent is a leaf, so start with parent's parent which is a container-ish
-		resolvedMeta := Find(parent, y.path)
+		resolvedMeta := findLeafrefTarget(parent, y.path)
 		if resolvedMeta == nil {
 			return fmt.Errorf("%s - %s path cannot be resolved", SchemaPath(parent), y.ident)
 		}
@@ -447,6 +448,27 @@ func inheritFromTypedef(parent Leafable, tdef *Typedef) {
 	if parent.Units() == "" {
 		parent.setUnits(tdef.Units())
 	}
+}
+
+// findLeafrefTarget follows the path of a leafref. The prefix that starts an absolute path
+// is one of the module the path is written in (RFC7950 Sec 6.4.1), which for a leaf that
+// came with a grouping of another module is not the module that uses it
+func findLeafrefTarget(parent Definition, path string) Definition {
+	if written := belongingModule(definingModule(parent)); written != RootModule(parent) && strings.HasPrefix(path, "/") {
+		first, rest, more := strings.Cut(path[1:], "/")
+		if prefix, ident := splitIdent(first); prefix != "" {
+			if mod, _, err := findModuleAndIsExternal(parent, prefix); err == nil && mod != nil {
+				target := Find(belongingModule(mod), ident)
+				if target != nil && more {
+					target = Find(target, rest)
+				}
+				if target != nil {
+					return target
+				}
+			}
+		}
+	}
+	return Find(parent, path)
 }
 
 func (c *compiler) findTypedef(y *Type, parent Definition, qualifiedIdent string) (*Typedef, error) {
